@@ -197,7 +197,7 @@ func TestC06(t *testing.T) {
 			rec.Fail(t, "join-routed-through-joining-node-refused-non-retryably", map[string]any{"schedule": "ring {1<<44, 3<<44}; 2<<44 joins via 3<<44 and its RequestToJoin response is held; 1<<44 stabilizes and fixes fingers; 5<<43 joins via 1<<44", "problem": p}, "%s", p)
 		}
 	}
-	ev.RapidCheck(t, 40, 1500, func(t *rapid.T) {
+	ev.RapidCheck(t, 40, 720, func(t *rapid.T) {
 		plan := genC06Plan().Draw(t, "plan")
 		r := newChurnRing(plan, true)
 		defer r.net.Close()
